@@ -11,7 +11,8 @@
 (*   o16/w16/m16, o24/w24/m24   samples beyond the integer container (by the float twin with the  *)
 (*           same gain), how many of them came out with the wrong sign, smallest magnitude        *)
 (* Environment: TRACE, STRICT (model conformance of the memory flag, SPEC-DRIFT only), TOLFLIP,   *)
-(* TOLTRANS (tolerate exactly the two recorded findings, see lib/checks/C19.py).                  *)
+(* TOLTRANS (relax exactly the clauses of findings F11 / F12 - both fixed, so both are "0" unless  *)
+(* known_findings.json lists them as known again, see lib/checks/C19.py).                         *)
 EXTENDS SoftClip, Json, IOUtils, TLC
 CONSTANTS SpreadTol,      \* 2^-30 units: one float rounding of y_0 * factor gives at most 2^-23 = 128
           FactorTol,      \* 1/25600 dB units: 50 = half a Q8 step, the factor is nearer to 10^(g/5120) than to g +- 1
@@ -95,9 +96,11 @@ TGRst == /\ l <= Len(Tr) /\ Tr[l].k = "grst"
 RatioOK(n, q, s, neg) == n > 0 => (neg = 0 /\ s <= SpreadTol /\ Abs(q - 100 * gain) <= FactorTol)
 
 \* the decoder cross-fades from a concealment frame of the old mode (opus_decode_frame, "transition")
+\* (a packet decoded for its FEC data may first conceal in the transform mode when the previous packet ended with redundancy)
 IsTrans(e) == /\ e.md # 0 /\ e.pm > 0
               /\ \/ e.md = 1002 /\ e.pm # 1002 /\ e.pr = 0
                  \/ e.md # 1002 /\ e.pm = 1002
+                 \/ e.kind = 2 /\ e.md # 1002 /\ e.pr = 1
 
 TGDec ==
   /\ l <= Len(Tr) /\ Tr[l].k = "gdec"
@@ -111,11 +114,11 @@ TGDec ==
      /\ (gcfg.fx = 0 /\ e.r0 > 0) =>
           /\ e.zb = 0
           /\ RatioOK(e.tn, e.tq, e.ts, e.tneg)
-          /\ ~(TolTrans /\ IsTrans(e)) => RatioOK(e.hn, e.hq, e.hs, e.hneg)
+          /\ ~(TolTrans /\ IsTrans(e)) => (e.zbh = 0 /\ RatioOK(e.hn, e.hq, e.hs, e.hneg))
      \* integer output saturates, never wraps
      /\ e.w16 = 0 /\ (e.o16 > 0 => e.m16 >= SatMin16)
      \* (fixed-point build: the reference is the gain-0 twin times 10^(g/5120); in the first 5 ms after a mode change
-     \*  that reference is off when the gain is applied twice, finding F19b)
+     \*  that reference is off when the gain is applied twice, finding F12)
      /\ ~(TolTrans /\ IsTrans(e)) => (e.wh16 = 0 /\ e.mh16 >= SatMin16)
      /\ e.w24 = 0 /\ (e.o24 > 0 => e.m24 >= SatMin24)
   /\ l' = l + 1 /\ UNCHANGED <<md, clr, mv, gcfg, gain>>
